@@ -195,6 +195,8 @@ func TestVerifRace(t *testing.T) {
 		{{"AOFMD5", "0", "10"}, {"SET", "k", "m5", "POINT", "2", "2"}},
 		{{"GC"}, {"FLUSHDB"}},
 		{{"READONLY", "no"}, {"SET", "k", "ro", "POINT", "2", "2"}},
+		// a lock-free script (pure Lua between its calls) next to writes that run a channel's WHEREEVAL filter
+		{{"EVALNA", "local x = 0 for i = 1, 200000 do x = x + (i % 7) end return tostring(x)", "0"}, {"SET", "k", "wf", "FIELD", "f", "1", "POINT", "1", "1"}},
 		// readers share Server.mu: scratch state shared between two read commands
 		{{"SCAN", "k", "LIMIT", "2"}, {"SCAN", "k", "CURSOR", "1", "LIMIT", "2", "DESC"}},
 		{{"NEARBY", "k", "LIMIT", "2", "POINT", "1", "1"}, {"WITHIN", "k", "LIMIT", "2", "BOUNDS", "-10", "-10", "10", "10"}},
@@ -268,7 +270,9 @@ func TestVerifRace(t *testing.T) {
 			// a few objects of every kind for the pair to work on
 			r := bufio.NewReader(sc)
 			for _, cmd := range [][]string{{"SET", "k", "a", "FIELD", "f", "1", "POINT", "1", "1"}, {"SET", "k", "b", "POINT", "2", "2"}, {"SET", "k", "ab", "FIELD", "f", "2", "POINT", "1.5", "1.5"},
-				{"SET", "k", "s", "STRING", "v"}, {"SET", "k", "t", "STRING", "w"}} {
+				{"SET", "k", "s", "STRING", "v"}, {"SET", "k", "t", "STRING", "w"},
+				// a channel whose WHEREEVAL filter is evaluated on every write to k
+				{"SETCHAN", "whe", "WITHIN", "k", "WHEREEVAL", "return FIELDS.f ~= nil and FIELDS.f > 0", "0", "FENCE", "BOUNDS", "-90", "-180", "90", "180"}} {
 				sc.Write(raceCmd(cmd...))
 				raceReadReply(r)
 			}
@@ -318,7 +322,7 @@ func TestVerifRace(t *testing.T) {
 	// reaching this point with no report means none was observed in this run
 	res := map[string]any{"check": "c07race", "shard": job.Shard, "evaluations": execs, "transitions": execs, "states": len(pairs),
 		"traces_validated_against_impl": execs, "exhaustive": false, "caps": []string{"free-running -race pass: schedules are sampled, not enumerated"},
-		"rule": "free-running -race build of the unmodified package: 41 command pairs (34 conflicting, 7 reader/reader) x N iterations on real connections, 2 live fences, a follower in the same process being read, subscribers coming and going, a webhook endpoint", "wall_s": time.Since(start).Seconds()}
+		"rule": "free-running -race build of the unmodified package: 42 command pairs (35 conflicting, 7 reader/reader; a channel with a WHEREEVAL filter on the written key) x N iterations on real connections, 2 live fences, a follower in the same process being read, subscribers coming and going, a webhook endpoint", "wall_s": time.Since(start).Seconds()}
 	out, _ := json.Marshal(res)
 	os.WriteFile(job.Out, out, 0644)
 	b := make([]byte, 16)
